@@ -161,6 +161,13 @@ def _assert_tree():
         raise HarnessError("py_gql imported from %s, not from /repo/src" % f)
 
 
+def _short_tb():
+    tb = traceback.format_exc()
+    for marker in ("Falsifying example", "Failing test case", "Falsifying explicit"):
+        tb = tb.split(marker)[0]
+    return tb[-3500:]
+
+
 def _run_shard(args):
     modname, tier, seed, shard, nshards, budget, phase = args
     try:
@@ -173,7 +180,7 @@ def _run_shard(args):
             dict(mod.extra_phases)[phase](ctx)
         return ("ok", ctx.result())
     except BaseException:
-        return ("err", "shard %d phase %s:\n%s" % (shard, phase, traceback.format_exc()[-3000:]))
+        return ("err", "shard %d phase %s:\n%s" % (shard, phase, _short_tb()))
 
 
 def load_known(prop):
